@@ -422,6 +422,8 @@ def drive(mod, ctx):
         if std_obs_check(ctx, c, o, getattr(mod, 'CRASH_DECIDES', True),
                          getattr(mod, 'SAN_DECIDES', True), getattr(mod, 'san_mechanism', None)):
             mod.judge(ctx, setup, c, o)
+    if hasattr(mod, 'finalize'):
+        mod.finalize(ctx, setup)
 
 
 def main(argv=None):
@@ -475,6 +477,8 @@ def generic_replay(mod, ctx, data):
     if std_obs_check(ctx, case, obs[0], getattr(mod, 'CRASH_DECIDES', True),
                      getattr(mod, 'SAN_DECIDES', True), getattr(mod, 'san_mechanism', None)):
         mod.judge(ctx, setup, case, obs[0])
+        if hasattr(mod, 'finalize'):
+            mod.finalize(ctx, setup)
 
 
 # ---------------------------------------------------------------------------
